@@ -184,6 +184,19 @@ func GenScenario(tp *tape.Tape, seed uint64, pf Profile) *Scenario {
 	inPlace := sc.Place.Pkg == "" && sc.Place.Symlink == "" && sc.Place.Writable
 	sc.MainPkg = inPlace && !sc.IncompleteMod && side.Chance(200, 1000)
 	sc.SiblingMock = !sc.IncompleteMod && side.Chance(180, 1000)
+	if sc.SiblingMock && sc.Place.Writable && side.Chance(600, 1000) {
+		// a scripted history for it: generate, let the interfaces evolve (the
+		// sibling mock is now stale and the package no longer type-checks),
+		// regenerate with and without -rm
+		first := genRun(side, Profile{}, sc.Place)
+		first.Rm, first.Stdout = false, false
+		again := genRun(side, Profile{}, sc.Place)
+		again.Rm, again.Stdout = true, false
+		sc.Steps = []Step{first, {Kind: StepEvolve, Damage: "shape"}, again, {Kind: StepRepeat}}
+		if side.Bool() {
+			sc.Steps = []Step{{Kind: StepEvolve, Damage: "shape"}, again, first}
+		}
+	}
 	// a fallback after a failed non-write primitive may fail in turn: a second
 	// rule on the writes (or, after a failed open, on whatever is opened next)
 	for i := range sc.Steps {
